@@ -124,6 +124,14 @@ def handle (line : String) : String :=
       let a := (Spec.toSRx Spec.wordKey m).toKAuto
       s!"ok {KAuto.wire a} ## {m.text.trimAsciiEnd.toString} ## {" ".intercalate ((Spec.wordsOf m).map Spec.wordKey)} ## {" ".intercalate ((Spec.wordsOf m).map fun c => hashKey c.eraseSpans.text)}"
     | _, _ => "bad-op"
+  | "pick" :: sh :: name :: rest =>
+    match shellOf sh, Hex.decode name, readGrammar (" ".intercalate rest) with
+    | some sh, some name, some g =>
+      match Spec.pick sh g name with
+      | .command c a => s!"command {Hex.encode c} {if a then 1 else 0}"
+      | .expr e => s!"expr {e.text.trimAsciiEnd.toString}"
+      | .anyWord => "anyword"
+    | _, _, _ => "bad-op"
   | ["canon", a] =>
     match parseKAuto a with
     | some a => match canonK a with
